@@ -122,6 +122,18 @@ fn check_surface(w: i32, h: i32, pixels: &[u32], st: &mut Stats, with_png: bool,
             return Some("into_vec after from_vec with a longer vector returns more than width*height pixels".to_string());
         }
         if n >= 2 {
+            // a recycled vector: shorter than needed but with the capacity (and the stale contents) of a larger one
+            let mut recycled = pixels.to_vec();
+            for p in recycled.iter_mut() {
+                *p |= 0x01000001;
+            }
+            recycled.truncate(n / 2);
+            let keep = recycled.clone();
+            let dt = DrawTarget::from_vec(w, h, recycled);
+            let d = dt.get_data();
+            if d.len() != n || d[..n / 2] != keep[..] || d[n / 2..].iter().any(|p| *p != 0) {
+                return Some("from_vec with a shorter vector of larger capacity is not extended with transparent pixels".to_string());
+            }
             let dt = DrawTarget::from_vec(w, h, pixels[..n / 2].to_vec());
             let d = dt.get_data();
             if d.len() != n || d[..n / 2] != pixels[..n / 2] || d[n / 2..].iter().any(|p| *p != 0) {
@@ -145,7 +157,9 @@ fn check_surface(w: i32, h: i32, pixels: &[u32], st: &mut Stats, with_png: bool,
         }
     }
     if with_png {
-        let path = format!("{}/c19-{}-{}.png", work_dir(), std::process::id(), tag);
+        // (the file is the one named, whatever its name looks like)
+        let ext = ["png", "png", "img", "0001", "PNG", "tmp"][(tag % 6) as usize];
+        let path = if tag % 13 == 5 { format!("{}/c19-{}-{}", work_dir(), std::process::id(), tag) } else { format!("{}/c19-{}-{}.{}", work_dir(), std::process::id(), tag, ext) };
         let dt = DrawTarget::from_vec(w, h, pixels.to_vec());
         let res = dt.write_png(&path);
         if w == 0 || h == 0 {
